@@ -17,9 +17,10 @@ PROP = {
             "kind of Cause, message; "
             "non-trivial = distinct (kind, depth, line, path/start) with an error result",
     "trusted_base": COMMON_TB + ["the placement generator's own bookkeeping of where it put the construct (offset -> line)"],
-    "assumptions": ["for an error inside an included file the property does not fix the line; only Path and the error are checked there",
-                    "that the reported line is the line of the INNERMOST failing tag or object is proved only node by node "
-                    "(obj_error_located, wrap_keeps_located); for whole templates it rests on the errloc placements"],
+    "assumptions": ["an error inside an included file carries the line of the failing construct counted from the include tag's line and the "
+                    "path of the INCLUDING template (RenderFile compiles the file with the tag's SourceLoc): C14 include_render_err_located",
+                    "line numbers start at the start line the template was parsed with: Engine.ParseTemplate / ParseString / ParseAndRender "
+                    "start at line 0 without a path, so an error on the first line of such a template has LineNumber 0"],
 }
 
 TEXT = {
@@ -39,20 +40,36 @@ TEXT = {
               'newline bytes of the source before t, the token sources partition the source, and the error names the configured path; '
               'for a template spelled from a Clean item list under GoodDelims (C19) without an include tag the error points at some item '
               'that is a tag or object (run_spell_error_at_item); with an include tag the line can be one of the included file instead '
-              '(include_error_line). Tie: the `errloc` stream places each of its 32 kinds of failing construct at every '
+              '(include_error_line). Determinate form (Proofs.C07First): firstFailure walks the compiled tree in render order with the renderer\'s '
+              'state - a node of a sequence is reached only when the one before it returned done; an object, assign or cycle that fails, '
+              'a break/continue, the if/elsif/when clause whose test fails, the case tag whose subject fails, the loop tag whose collection '
+              'or modifier fails, the include tag whose argument fails or whose file cannot be read is the site; otherwise the walk goes into '
+              'the branch taken, the iterations (each in the state the previous one left), the capture body, the included file (the handler\'s '
+              'error) - and every enclosing block passes the site through relocate = WrapError on locations, which keeps a site that has a '
+              'line or a path (wrap_fin_keeps) and puts a not yet located error at the wrapping tag (wrap_fin_plain); '
+              'render_fails_at_firstFailure (every context whose include handler renders to its own buffer, every tree, every environment, '
+              'fault-free writer, includes allowed): an error of Render - a failure, or a break/continue that reaches the top - is a located '
+              'error whose line and path flag are those of firstFailure; run_fails_at_firstFailure: the same for run on every source that '
+              'compiles. The walk is proved against the interaction tree in Proofs/RenderTrace.lean (sp_renderNode ... sp_frenderOf). Line 0: '
+              'render_error_line_nonzero (include-free tree, no tag or object at line 0, fault-free writer: the error line is not 0 and the '
+              'error names the path) and run_error_line_ge_start (source without include tag: the error line is at least the start line); with '
+              'a failing writer line 0 arises exactly for a top-level raw block, left trim marker or the final flush (C20 fault_site_in_tree, '
+              'located_node_fault_sites). Tie: the `errloc` stream places each of its 32 kinds of failing construct at every '
               'nesting depth 0..6, one (path, start line) combination per placement, compares model and real engine (kind, line, path, cause) and '
               'checks the line against the known position.'),
     "design_ref": 'DESIGN.md 6 C07',
-    "note": NOTE + ('The whole-template and source-level theorems are existential: the error line is the line of SOME node of the tree '
-              '(whole-template form: tags, objects, texts, or 0) resp. of SOME tag or object token of the source (source-level form: '
-              'never a text-only line, never an invented line); that it is the innermost offending construct is proved '
-              'only locally (obj_error_located, wrap_keeps_located) and otherwise checked by the errloc placements. They are about '
-              'include-free templates (an error inside an included file carries that file\'s line: include_error_line). In '
-              'render_error_line_in_tree line 0 is allowed without condition; that it only arises for a writer failure at a node '
-              'without location (raw, trim marker, final flush) at top level is explained in a comment of Proofs/C07Lines.lean, not '
-              'proved (for the fault-free writer run_error_at_tag_or_object always finds a tag or object token). The predicates AllFail / Post hold trivially '
+    "note": NOTE + ('render_error_line_in_tree and run_error_at_tag_or_object are existential (the line of SOME node resp. SOME tag or object token); '
+              'the determinate statement is run_fails_at_firstFailure. firstFailure reads the DECISIONS of the walk (which branch is taken, '
+              'which items are visited, the state after a node) off the fault-free run of the sub-programs, and the LOCATIONS off the tree; '
+              'for an include node the site is the location of the handler\'s error (what that is: C14 include_render_err_located, '
+              'include_missing_located). That firstFailure is none when the render succeeds is not stated. On line 0 of a template parsed '
+              'without a path a located error carries no information and is re-located by the enclosing block (WrapError): there the site is '
+              'the enclosing block\'s tag, which is what relocate computes and what the real code does (errloc places at start line 0 too). '
+              'Line 0 itself is reachable on a fault-free writer: Engine.ParseTemplate, ParseString and ParseAndRender compile at start line 0 '
+              'without a path, so `{{ 1 | nofilter }}` through ParseAndRender reports LineNumber 0 (run on the real code); the never-0 theorems '
+              'therefore assume a start line of at least 1 resp. no tag or object at line 0. The predicates AllFail / Post hold trivially '
               'of a run that ends in the model outcomes panic or unmodelled, so "every failure" means every `fail` outcome. errloc does '
               'not place a syntax error in the argument of an include tag (found at render time), nor a for block with two else clauses.'),
-    "technique": ('Lean 4 proof (wrapError case analysis; AllFail predicate on interaction trees) + model/implementation '
+    "technique": ('Lean 4 proof (wrapError case analysis; AllFail predicate on interaction trees; location trace of the node tree by induction over the render tree) + model/implementation '
               'correspondence + placement oracle on the implementation'),
 }
